@@ -186,6 +186,7 @@ libNew(FileName fname, Bool rdOnly, FILE *f, Offset pos)
 	lib->idName	= NULL;
 	lib->file	= f;
 	lib->offset	= pos;
+	lib->isOutput	= false;
 	lib->self	= NULL;
 
 	if (lib->rdOnly)
@@ -235,7 +236,9 @@ libRead(FileName fname)
 Lib
 libWrite(FileName fname)
 {
-	return libNew(fname, false, fileWubOpen(fname), (Offset) 0);
+	Lib lib = libNew(fname, false, fileWubOpen(fname), (Offset) 0);
+	lib->isOutput = true;
+	return lib;
 }
 
 /*
@@ -338,7 +341,11 @@ libClose(Lib lib)
 	else
 		libPutHeader(lib);
 
-	if (!(lib->rdOnly & 2)) fclose(lib->file);	
+	if (!(lib->rdOnly & 2)) {
+		Bool	bad = lib->isOutput && ferror(lib->file) != 0;
+		if (fclose(lib->file) != 0 && lib->isOutput) bad = true;
+		if (bad) libFatal(lib, ALDOR_F_CantWrite);
+	}
 	libUnRegister(lib);
 	fnameFree(lib->name);
 
